@@ -2,6 +2,7 @@ package vuego
 
 import (
 	"fmt"
+	"strings"
 
 	"golang.org/x/net/html"
 
@@ -71,8 +72,20 @@ func (v *Vue) evalInclude(ctx VueContext, node *html.Node, vars map[string]any, 
 		return nil, err
 	}
 
+	// A <template> element is the component's ROOT only when it is the whole file. A file that
+	// merely starts with a <template ...> tag (an include, a v-if / v-for wrapper) followed by
+	// more content is an ordinary node list: everything in it is rendered.
+	if !isSoleTemplateRoot(compDom) {
+		childCtx := ctx.WithTemplate(name)
+		evaluated, err := v.evaluate(childCtx, compDom, depth+1)
+		if err != nil {
+			return nil, fmt.Errorf("error in %s (included from %s): %w", name, ctx.FormatTemplateChain(), err)
+		}
+		return evaluated, nil
+	}
+
 	// Validate and process template tag
-	processedDom, err := v.evalTemplate(ctx, compDom, ctx.stack.EnvMap(), depth+1)
+	processedDom, err := v.evalTemplate(ctx, significantNodes(compDom), ctx.stack.EnvMap(), depth+1)
 	if err != nil {
 		return nil, fmt.Errorf("error in %s (included from %s): %w", name, ctx.FormatTemplateChain(), err)
 	}
@@ -80,7 +93,7 @@ func (v *Vue) evalInclude(ctx VueContext, node *html.Node, vars map[string]any, 
 	// A component whose root is a <template> element has been evaluated completely by
 	// evalTemplate (in the scope of that root); evaluating the result a second time would run
 	// conditions and interpolation again outside the loop and slot scopes they belong to.
-	if isEvaluatedTemplateRoot(compDom, processedDom) {
+	if isEvaluatedTemplateRoot(significantNodes(compDom), processedDom) {
 		return processedDom, nil
 	}
 
@@ -99,4 +112,23 @@ func isEvaluatedTemplateRoot(compDom, processedDom []*html.Node) bool {
 		return true // the nested include has been evaluated by evalInclude
 	}
 	return !(len(processedDom) == len(compDom) && len(processedDom) > 0 && processedDom[0] == compDom[0])
+}
+
+// significantNodes drops whitespace-only text and comment nodes from a top-level node list.
+func significantNodes(nodes []*html.Node) []*html.Node {
+	out := make([]*html.Node, 0, len(nodes))
+	for _, n := range nodes {
+		if n.Type == html.CommentNode || (n.Type == html.TextNode && strings.TrimSpace(n.Data) == "") {
+			continue
+		}
+		out = append(out, n)
+	}
+	return out
+}
+
+// isSoleTemplateRoot reports whether the component consists of exactly one <template> element
+// (whitespace and comments aside).
+func isSoleTemplateRoot(nodes []*html.Node) bool {
+	sig := significantNodes(nodes)
+	return len(sig) == 1 && sig[0].Type == html.ElementNode && sig[0].Data == "template"
 }
